@@ -36,13 +36,14 @@ type appCmd struct {
 
 // appPkg adapts one package's Command / Commands types.
 type appPkg struct {
-	name    string
-	get     func(up bool, cid byte) (appPayload, bool)
-	encCmd  func(c appCmd) ([]byte, error)
-	sizeCmd func(c appCmd) int
-	decCmd  func(up bool, b []byte) (appCmd, error)
-	encSeq  func(cs []appCmd) ([]byte, error)
-	decSeq  func(up bool, b []byte) ([]appCmd, error)
+	name     string
+	get      func(up bool, cid byte) (appPayload, bool)
+	encCmd   func(c appCmd) ([]byte, error)
+	sizeCmd  func(c appCmd) int
+	decCmd   func(up bool, b []byte) (appCmd, error)
+	encSeq   func(cs []appCmd) ([]byte, error)
+	decSeq   func(up bool, b []byte) ([]appCmd, error)
+	reuseSeq func(up bool, b1, b2 []byte) (string, error)
 }
 
 func asPayload(x interface{}) appPayload {
@@ -63,7 +64,7 @@ var appPkgs = map[string]*appPkg{
 			p, err := clocksync.GetCommandPayload(up, clocksync.CID(cid))
 			return asPayload(p), err == nil
 		},
-		encCmd: func(c appCmd) ([]byte, error) { return csCmd(c).MarshalBinary() },
+		encCmd:  func(c appCmd) ([]byte, error) { return csCmd(c).MarshalBinary() },
 		sizeCmd: func(c appCmd) int { return csCmd(c).Size() },
 		decCmd: func(up bool, b []byte) (appCmd, error) {
 			var c clocksync.Command
@@ -86,6 +87,29 @@ var appPkgs = map[string]*appPkg{
 			}
 			return out, err
 		},
+		reuseSeq: func(up bool, b1, b2 []byte) (string, error) {
+			var used, fresh clocksync.Commands
+			used.UnmarshalBinary(up, b1)
+			e1 := used.UnmarshalBinary(up, b2)
+			e2 := fresh.UnmarshalBinary(up, b2)
+			if (e1 == nil) != (e2 == nil) {
+				return "DIFF error", nil
+			}
+			if e2 != nil {
+				return "same", nil
+			}
+			f := func(l clocksync.Commands) string {
+				var out []appCmd
+				for _, c := range l {
+					out = append(out, appCmd{byte(c.CID), asPayload(c.Payload)})
+				}
+				return fmtAppCmds(out)
+			}
+			if f(used) != f(fresh) {
+				return "DIFF", nil
+			}
+			return "same", nil
+		},
 	},
 	"multicastsetup": {
 		name: "multicastsetup",
@@ -93,7 +117,7 @@ var appPkgs = map[string]*appPkg{
 			p, err := multicastsetup.GetCommandPayload(up, multicastsetup.CID(cid))
 			return asPayload(p), err == nil
 		},
-		encCmd: func(c appCmd) ([]byte, error) { return mcCmd(c).MarshalBinary() },
+		encCmd:  func(c appCmd) ([]byte, error) { return mcCmd(c).MarshalBinary() },
 		sizeCmd: func(c appCmd) int { return mcCmd(c).Size() },
 		decCmd: func(up bool, b []byte) (appCmd, error) {
 			var c multicastsetup.Command
@@ -116,6 +140,29 @@ var appPkgs = map[string]*appPkg{
 			}
 			return out, err
 		},
+		reuseSeq: func(up bool, b1, b2 []byte) (string, error) {
+			var used, fresh multicastsetup.Commands
+			used.UnmarshalBinary(up, b1)
+			e1 := used.UnmarshalBinary(up, b2)
+			e2 := fresh.UnmarshalBinary(up, b2)
+			if (e1 == nil) != (e2 == nil) {
+				return "DIFF error", nil
+			}
+			if e2 != nil {
+				return "same", nil
+			}
+			f := func(l multicastsetup.Commands) string {
+				var out []appCmd
+				for _, c := range l {
+					out = append(out, appCmd{byte(c.CID), asPayload(c.Payload)})
+				}
+				return fmtAppCmds(out)
+			}
+			if f(used) != f(fresh) {
+				return "DIFF", nil
+			}
+			return "same", nil
+		},
 	},
 	"fragmentation": {
 		name: "fragmentation",
@@ -123,7 +170,7 @@ var appPkgs = map[string]*appPkg{
 			p, err := fragmentation.GetCommandPayload(up, fragmentation.CID(cid))
 			return asPayload(p), err == nil
 		},
-		encCmd: func(c appCmd) ([]byte, error) { return frCmd(c).MarshalBinary() },
+		encCmd:  func(c appCmd) ([]byte, error) { return frCmd(c).MarshalBinary() },
 		sizeCmd: func(c appCmd) int { return frCmd(c).Size() },
 		decCmd: func(up bool, b []byte) (appCmd, error) {
 			var c fragmentation.Command
@@ -146,6 +193,29 @@ var appPkgs = map[string]*appPkg{
 			}
 			return out, err
 		},
+		reuseSeq: func(up bool, b1, b2 []byte) (string, error) {
+			var used, fresh fragmentation.Commands
+			used.UnmarshalBinary(up, b1)
+			e1 := used.UnmarshalBinary(up, b2)
+			e2 := fresh.UnmarshalBinary(up, b2)
+			if (e1 == nil) != (e2 == nil) {
+				return "DIFF error", nil
+			}
+			if e2 != nil {
+				return "same", nil
+			}
+			f := func(l fragmentation.Commands) string {
+				var out []appCmd
+				for _, c := range l {
+					out = append(out, appCmd{byte(c.CID), asPayload(c.Payload)})
+				}
+				return fmtAppCmds(out)
+			}
+			if f(used) != f(fresh) {
+				return "DIFF", nil
+			}
+			return "same", nil
+		},
 	},
 	"firmwaremanagement": {
 		name: "firmwaremanagement",
@@ -153,7 +223,7 @@ var appPkgs = map[string]*appPkg{
 			p, err := firmwaremanagement.GetCommandPayload(up, firmwaremanagement.CID(cid))
 			return asPayload(p), err == nil
 		},
-		encCmd: func(c appCmd) ([]byte, error) { return fwCmd(c).MarshalBinary() },
+		encCmd:  func(c appCmd) ([]byte, error) { return fwCmd(c).MarshalBinary() },
 		sizeCmd: func(c appCmd) int { return fwCmd(c).Size() },
 		decCmd: func(up bool, b []byte) (appCmd, error) {
 			var c firmwaremanagement.Command
@@ -175,6 +245,29 @@ var appPkgs = map[string]*appPkg{
 				out = append(out, appCmd{byte(c.CID), asPayload(c.Payload)})
 			}
 			return out, err
+		},
+		reuseSeq: func(up bool, b1, b2 []byte) (string, error) {
+			var used, fresh firmwaremanagement.Commands
+			used.UnmarshalBinary(up, b1)
+			e1 := used.UnmarshalBinary(up, b2)
+			e2 := fresh.UnmarshalBinary(up, b2)
+			if (e1 == nil) != (e2 == nil) {
+				return "DIFF error", nil
+			}
+			if e2 != nil {
+				return "same", nil
+			}
+			f := func(l firmwaremanagement.Commands) string {
+				var out []appCmd
+				for _, c := range l {
+					out = append(out, appCmd{byte(c.CID), asPayload(c.Payload)})
+				}
+				return fmtAppCmds(out)
+			}
+			if f(used) != f(fresh) {
+				return "DIFF", nil
+			}
+			return "same", nil
 		},
 	},
 }
